@@ -18,6 +18,13 @@ reversed views; operators handing back C / Fortran / reused-buffer results; prox
 the operators act on the row-major flattening, which is the vector the model and the theorems talk about.  The
 search also starts GradientMethod where grad f is exactly zero but f + g is not minimal (`search_zero_grad`) and
 PDHG from exact zeros, and sweeps all layouts deterministically (`search_layouts`).
+The callbacks are the CALLER's too: a gradient / operator may hand back memory it does not own — its argument
+(f = ½|x|²: grad f(x) = x as `lambda v: v`, a view `v[...]`, `sigpy.linop.Identity`; for PDHG also a reshaped view /
+`sigpy.linop.Reshape`), or a persistent array of problem data (f = Re<c,x>, L = 0: grad f = c, writable or read-only).
+Such instances are in both correspondence streams (A = I, b = 0) and swept deterministically over every layout in
+`search_alias`; the oracles also run with a second LIVE solver object interleaved that shares the callbacks
+(`shadow`), and on data of very small / very large magnitude (all data scaled by a power of two, tolerances scaled
+along: floating-point arithmetic is scale invariant, so the guarantees are demanded exactly as at unit scale).
 """
 import json
 import math
@@ -261,6 +268,41 @@ def wrap_op(fn, oshape, out="C"):
     return op
 
 
+# A callback may hand back memory it does not own.  GRADK: the gradient / operator is the identity map and returns
+# its ARGUMENT (the object itself, a view of it, or through sigpy.linop.Identity which returns its input);
+# CONSTK: the gradient of a linear f is one persistent array of problem data (writable / read-only).
+GRADK = ("arg", "view", "linop")
+CONSTK = ("const", "const-ro")
+IDENTK = ("lambda", "linop", "view", "reshape", "linop-reshape")   # PDHG: A = AH = identity, see identity_ops
+
+
+def alias_op(kind, shape):
+    """the identity map as a callback that does not allocate: returns its argument / a view of it"""
+    if kind == "arg":
+        return lambda v: v
+    if kind == "view":
+        return lambda v: v[...]
+    if kind == "linop":
+        import sigpy as sp
+        return sp.linop.Identity(list(shape))
+    raise ValueError(kind)
+
+
+def identity_ops(kind, xsh, ush):
+    """(A, AH) for A = identity between variables of shape xsh and ush (same number of entries, row-major)"""
+    import sigpy as sp
+    xsh, ush = tuple(xsh), tuple(ush)
+    if kind == "reshape":          # a view for contiguous arguments, a copy otherwise: both are legal
+        return (lambda v: v.reshape(ush)), (lambda w: w.reshape(xsh))
+    if kind == "linop-reshape":
+        R = sp.linop.Reshape(list(ush), list(xsh))
+        return R, R.H
+    if xsh != ush:
+        raise ValueError("identity kind %s needs equal shapes" % kind)
+    op = alias_op({"lambda": "arg"}.get(kind, kind), xsh)
+    return op, op
+
+
 def wrap_prox(p, kind):
     if p is None or kind == "obj":
         return p
@@ -310,8 +352,11 @@ def make_alg(c):
     olay, pk = c.get("olay", "C"), c.get("proxk", "obj")
     x = lay(build_vec(c, "x0"), xsh, c.get("xlay", "C"))
     sc = conv("exact" if c["mode"] == "exact" else "float")[0]
+    if olay in GRADK and not is_alias_case(c):
+        raise ValueError("olay=%s needs A = I, b = 0" % olay)
     if c["kind"] == "gm":
-        gradf = wrap_op(lambda v: AH @ (A @ v - b), xsh, olay)
+        # A = I, b = 0: grad f(x) = x, handed back as the argument itself / a view of it / by linop.Identity
+        gradf = alias_op(olay, xsh) if olay in GRADK else wrap_op(lambda v: AH @ (A @ v - b), xsh, olay)
         a = alg.GradientMethod(gradf, x, sc(c["alpha"]), proxg=wrap_prox(build_prox(c["prox"], xsh, c["mode"]), pk),
                                accelerate=bool(c["accel"]), max_iter=10 ** 9)
         if c["mode"] == "exact" and c["accel"]:
@@ -320,13 +365,28 @@ def make_alg(c):
     u = lay(build_vec(c, "u0"), ush, c.get("ulay", "C"))
     proxfc = wrap_prox(prox.L2Reg(ush, sc("1"), y=(-b).reshape(ush)), pk)
     proxg = wrap_prox(build_prox(c["proxg"], xsh, c["mode"]), pk)
-    a = alg.PrimalDualHybridGradient(proxfc, proxg, wrap_op(lambda v: A @ v, ush, olay),
-                                     wrap_op(lambda w: AH @ w, xsh, olay), x, u,
+    if olay in GRADK:
+        Aop, AHop = identity_ops({"arg": "lambda"}.get(olay, olay), xsh, ush)
+    else:
+        Aop, AHop = wrap_op(lambda v: A @ v, ush, olay), wrap_op(lambda w: AH @ w, xsh, olay)
+    a = alg.PrimalDualHybridGradient(proxfc, proxg, Aop, AHop, x, u,
                                      build_step(c["tau"], c["mode"], xsh, c.get("tlay", "C")),
                                      build_step(c["sigma"], c["mode"], ush, c.get("tlay", "C")),
                                      gamma_primal=sc(c["gp"]) if F(c["gp"]) != 0 else 0,
                                      gamma_dual=sc(c["gd"]) if F(c["gd"]) != 0 else 0, max_iter=10 ** 9)
     return a, x, u
+
+
+def is_alias_case(c):
+    """A = I (and, for the gradient method, b = 0): the operator / gradient is the identity map"""
+    m, n = c["m"], c["n"]
+    if m != n or any(F(v) != (1 if i // n == i % n else 0) for i, v in enumerate(c["A"])):
+        return False
+    if c["mode"] == "complex" and any(F(v) != 0 for v in c["Ai"]):
+        return False
+    if c["kind"] == "gm":
+        return all(F(v) == 0 for v in c["b"]) and all(F(v) == 0 for v in c.get("bi", []))
+    return tuple(c.get("xshape") or (n,)) == tuple(c.get("ushape") or (m,))
 
 
 def exact_list(a):
@@ -522,21 +582,28 @@ def gen_case(rng, mode, kind=None):
         n, m = rng.choice((4, 4, 6)), rng.choice((2, 3, 4, 4, 6))
     def kmax(k):  # the model runs the float cases over exact rationals: keep the larger instances short
         return k if not nd else (10 if mode == "float" else 7)
-    rows = gen_matrix(rng, m, n)
+    # a fifth of the cases: the identity map handed over as a callback that returns its ARGUMENT (or a view of it):
+    # grad f(x) = x for f = ½|x|² (gm: A = I, b = 0), A = AH = identity (pd, denoising f(x) + g(x))
+    ident = rng.random() < 0.2
+    if ident:
+        m = n
+    rows = gen_matrix(rng, m, n) if not ident else [[F(int(i == j)) for j in range(n)] for i in range(n)]
+    zero_b = ident and kind == "gm"
     c = dict(kind=kind, mode=mode, m=m, n=n, A=[fs(v) for r in rows for v in r],
-             b=[fs(rfrac(rng)) for _ in range(m)], x0=[fs(rfrac(rng)) for _ in range(n)])
-    if nd or rng.random() < 0.3:
+             b=[fs(F(0) if zero_b else rfrac(rng)) for _ in range(m)], x0=[fs(rfrac(rng)) for _ in range(n)])
+    if nd or ident or rng.random() < 0.3:
         # the caller's arrays: any shape with these many entries, any memory layout; operators act on the
         # row-major flattening and hand their result back C-ordered, Fortran-ordered or in a reused buffer
-        c.update(xshape=list(pick_shape(rng, n)), xlay=rng.choice(LAYOUTS), olay=rng.choice(OUTS),
+        c.update(xshape=list(pick_shape(rng, n)), xlay=rng.choice(LAYOUTS), olay=rng.choice(GRADK if ident else OUTS),
                  proxk=rng.choice(PROXK))
         if kind == "pd":
-            c.update(ushape=list(pick_shape(rng, m)), ulay=rng.choice(LAYOUTS), tlay=rng.choice(("C", "F")))
+            c.update(ushape=c["xshape"] if ident else list(pick_shape(rng, m)), ulay=rng.choice(LAYOUTS),
+                     tlay=rng.choice(("C", "F")))
     nrm = frob2(rows)
     if mode == "complex":
-        rows_i = gen_matrix(rng, m, n)
+        rows_i = gen_matrix(rng, m, n) if not ident else [[F(0)] * n for _ in range(n)]
         c["Ai"] = [fs(v) for r in rows_i for v in r]
-        c["bi"] = [fs(rfrac(rng)) for _ in range(m)]
+        c["bi"] = [fs(F(0) if zero_b else rfrac(rng)) for _ in range(m)]
         c["x0i"] = [fs(rfrac(rng)) for _ in range(n)]
         nrm += frob2(rows_i)
     if mode == "exact":
@@ -639,6 +706,7 @@ def _stream(ctx, cases, stream):
                              else ("gp" if F(c["gp"]) > 0 else "gd" if F(c["gd"]) > 0 else "const") + ":" + c["tau"][0] + c["sigma"][0])
         ctx.count(tag)
         ctx.count("layout:x=%s%s" % (c.get("xlay", "C"), ":nd" if sum(1 for d in c.get("xshape", ()) if d > 1) >= 2 else ""))
+        ctx.count("callback:%s:%s" % (c["kind"], c.get("olay", "C")))
         if c["kind"] == "pd":
             hyp_note(hyp_exact(c), canon(c)[:300])
         ctx.case(canon(c), sample=dict(line=ln[:240], reply=r[:160]) if ctx.evaluations % 23 == 0 else None)
@@ -654,7 +722,9 @@ def correspond(ctx):
     ctx.rule = ("case = (solver, m×n rational matrix A, b, x0[, u0], step(s) scalar or array, prox kind ∈ "
                 "{None, NoOp, L2Reg, BoxConstraint, L1Reg} as object or in-place function, accelerate / gamma_primal / "
                 "gamma_dual, number of updates, shape (1–3 axes) and memory layout (C, Fortran, transposed, strided, "
-                "reversed view) of the caller's x / u / step arrays, layout of the operator outputs); "
+                "reversed view) of the caller's x / u / step arrays, what the caller's callbacks hand back: a fresh C / Fortran "
+                "array, a reused buffer, or — for A = I (b = 0) in a fifth of the cases — their ARGUMENT, a view of it, or "
+                "through sigpy.linop.Identity); "
                 "distinct by the full JSON case; every case runs ≥ 2 updates of the real class and compares the whole "
                 "state (x, z, t | x, u, x_ext, tau, sigma; resid) after each")
     ctx.assumptions += [
@@ -695,14 +765,18 @@ def g_value(spec, x):
         return float(F(spec[1])) * float(np.sum(np.abs(x)))
     if k == "box":
         lo, hi = float(F(spec[1])), float(F(spec[2]))
-        return 0.0 if np.all(x.real >= lo - 1e-12) and np.all(x.real <= hi + 1e-12) else np.inf
+        t = 1e-12 * max(abs(lo), abs(hi))      # relative: the data may be of any magnitude (the clip is exact anyway)
+        return 0.0 if np.all(x.real >= lo - t) and np.all(x.real <= hi + t) else np.inf
     raise ValueError(spec)
 
 
-def planted(rng, m, n, gspec, cplx, cond=3.0, structured=None):
+def planted(rng, m, n, gspec, cplx, cond=3.0, structured=None, xreal=False):
     """instance with a known minimiser x* / saddle point (x*, u*) of ½‖Ax-b‖² + g(x):
-    choose x*, a subgradient s of g at x*, u* with Aᴴu* = -s, and b = A x* - u*."""
+    choose x*, a subgradient s of g at x*, u* with Aᴴu* = -s, and b = A x* - u*.
+    xreal (with cplx): complex A, b but a REAL unknown held in a real-dtype array (real image, complex data): the
+    operator is the real-linear map x -> Ax from R^n to C^m, its adjoint w -> Re(Aᴴw); u* with Re(Aᴴu*) = -s."""
     nr = np.random.RandomState(rng.randint(0, 2 ** 31 - 1))
+    xreal = bool(xreal and cplx)
 
     def rnd(*sh):
         return nr.randn(*sh) + 1j * nr.randn(*sh) if cplx else nr.randn(*sh)
@@ -725,9 +799,10 @@ def planted(rng, m, n, gspec, cplx, cond=3.0, structured=None):
         S[:r, :r] = np.diag(sv)
         A = U @ S @ V.conj().T
     k = gspec[0]
-    xs = rnd(n)
+    xs = nr.randn(n) if xreal else rnd(n)
+    xdt = float if xreal else A.dtype
     if k in ("none", "noop"):
-        s = np.zeros(n, dtype=A.dtype)
+        s = np.zeros(n, dtype=xdt)
     elif k == "l2":
         s = float(F(gspec[1])) * xs
     elif k == "l1":
@@ -741,9 +816,15 @@ def planted(rng, m, n, gspec, cplx, cond=3.0, structured=None):
         which = nr.randint(0, 3, size=n)
         xs = np.where(which == 0, lo, np.where(which == 1, hi, lo + (hi - lo) * nr.rand(n)))
         s = np.where(which == 0, -nr.rand(n), np.where(which == 1, nr.rand(n), 0.0))
-        xs = xs.astype(A.dtype)
+        xs = xs.astype(xdt)
     # u* with Aᴴ u* = -s  (needs full column rank; else only s in range(Aᴴ): project)
     AH = A.conj().T
+    if xreal:   # Re(Aᴴ(ur + i ui)) = Arᵀ ur + Aiᵀ ui
+        sol = -np.linalg.lstsq(np.hstack([A.real.T, A.imag.T]), s.astype(float), rcond=None)[0]
+        us = sol[:m] + 1j * sol[m:]
+        if np.linalg.norm((AH @ us).real + s) > 1e-12 * (1 + np.linalg.norm(s)):
+            return None
+        return dict(A=A, b=A @ xs - us, xs=xs.astype(float), us=us, gspec=gspec, structured=structured, xreal=True)
     us = -np.linalg.lstsq(AH, s.astype(A.dtype), rcond=None)[0]
     if np.linalg.norm(AH @ us + s) > 1e-12 * (1 + np.linalg.norm(s)):
         return None
@@ -765,9 +846,62 @@ def real_prox(gspec, n):
 
 
 def objective(P, x):
+    """½|Ax-b|² [+ Re<c,x>] + g(x)"""
     x = flat(x)
     r = P["A"] @ x - P["b"]
-    return 0.5 * float(np.vdot(r, r).real) + g_value(P["gspec"], x)
+    lin = float(np.vdot(P["c"], x).real) if P.get("c") is not None else 0.0
+    return 0.5 * float(np.vdot(r, r).real) + lin + g_value(P["gspec"], x)
+
+
+def alias_instance(n, gspec, cplx):
+    """f = ½|x|² (A = I, b = 0): grad f(x) = x, so a caller's gradf may simply return its argument (GRADK);
+    the minimiser of f + g is prox_g(0), in closed form"""
+    dt = complex if cplx else float
+    xs = np_prox(gspec, 1.0, np.zeros(n, dtype=dt)).astype(dt)
+    return dict(A=np.eye(n, dtype=dt), b=np.zeros(n, dtype=dt), xs=xs, us=xs.copy(), gspec=gspec, structured="alias",
+                exact_xs=True)
+
+
+def linear_instance(rng, n, gspec, cplx):
+    """f = Re<c,x> (the degenerate quadratic A = 0; L = 0, so every alpha > 0 is admissible): grad f is the constant
+    c, so a caller's gradf may return one persistent array of problem data (CONSTK).  Minimiser of f + g in closed
+    form: l2: -c/lam;  box: lo where c > 0, hi where c < 0 (c != 0);  l1 with |c_i| < lam: 0."""
+    nr = np.random.RandomState(rng.randint(0, 2 ** 31 - 1))
+    dt = complex if cplx else float
+    c = (nr.randn(n) + (1j * nr.randn(n) if cplx else 0)).astype(dt)
+    k = gspec[0]
+    if k == "l2":
+        xs = -c / float(F(gspec[1]))
+    elif k == "l1":
+        c = (float(F(gspec[1])) * 0.9 * c / np.maximum(1.0, np.abs(c).max())).astype(dt)
+        xs = np.zeros(n, dtype=dt)
+    elif k == "box" and not cplx:
+        c = np.where(np.abs(c) < 0.1, 0.1, c)
+        xs = np.where(c > 0, float(F(gspec[1])), float(F(gspec[2])))
+    else:
+        raise ValueError("f + g unbounded below: %r" % (gspec,))
+    return dict(A=np.zeros((1, n), dtype=dt), b=np.zeros(1, dtype=dt), c=c, xs=xs.astype(dt), us=np.zeros(1, dtype=dt),
+                gspec=gspec, structured="linear", exact_xs=True)
+
+
+MAGS = (-40, -13, 17, 33)
+
+
+def rescale(P, k, *vecs):
+    """the same problem with all data multiplied by s = 2**k (x, b, c, x*, u*, the box, the l1 weight; A, the l2 weight
+    and the steps are unchanged): f + g is multiplied by s², every guarantee scales along and floating-point
+    arithmetic commutes with the scaling (no rounding in a multiplication by a power of two), so the oracles demand on
+    tiny / huge data exactly what they demand at unit scale — with every tolerance floor scaled by s resp. s²."""
+    s = 2.0 ** k
+    g = list(P["gspec"])
+    if g[0] == "l1":
+        g = ["l1", fs(F(g[1]) * F(2) ** k)]
+    elif g[0] == "box":
+        g = ["box", fs(F(g[1]) * F(2) ** k), fs(F(g[2]) * F(2) ** k)]
+    Q_ = dict(P, b=P["b"] * s, xs=P["xs"] * s, us=P["us"] * s, gspec=g, mag=s * P.get("mag", 1.0))
+    if P.get("c") is not None:
+        Q_["c"] = P["c"] * s
+    return [Q_] + [None if v is None else v * s for v in vecs]
 
 
 def np_prox(gspec, alpha, v):
@@ -780,7 +914,7 @@ def np_prox(gspec, alpha, v):
     if k == "l1":
         t = float(F(gspec[1])) * alpha
         mag = np.abs(v)
-        return np.where(mag > t, (1 - t / np.maximum(mag, 1e-300)) * v, 0).astype(v.dtype)
+        return np.where(mag > t, (1 - t / np.where(mag > t, mag, 1.0)) * v, 0).astype(v.dtype)
     if k == "box":
         return np.clip(v.real, float(F(gspec[1])), float(F(gspec[2]))).astype(v.dtype)
     raise ValueError(gspec)
@@ -850,13 +984,37 @@ def case_of(P, extra):
              xs_re=P["xs"].real.tolist(), xs_im=P["xs"].imag.tolist() if np.iscomplexobj(P["xs"]) else None,
              us_re=P["us"].real.tolist(), us_im=P["us"].imag.tolist() if np.iscomplexobj(P["us"]) else None,
              gspec=P["gspec"], structured=P.get("structured"), identity_kind=P.get("identity_kind"),
-             exact_xs=P.get("exact_xs", True))
+             exact_xs=P.get("exact_xs", True), mag=P.get("mag", 1.0), xreal=bool(P.get("xreal")))
+    if P.get("c") is not None:
+        d.update(c_re=P["c"].real.tolist(), c_im=P["c"].imag.tolist() if np.iscomplexobj(P["c"]) else None)
     d.update(extra)
     return d
 
 
 def gm_layout(rng, n, shape=None):
     return dict(xshape=list(shape or pick_shape(rng, n)), x=rng.choice(LAYOUTS), out=rng.choice(OUTS), prox=rng.choice(PROXK))
+
+
+def _rand_like(nrs, v, mag):
+    return (nrs.randn(len(v)) + (1j * nrs.randn(len(v)) if np.iscomplexobj(v) else 0)) * mag
+
+
+def gm_shadow(rng, nrs, x0, P):
+    """a second live GradientMethod object (own array, own start, own accelerate flag, a step <= the main one) that
+    shares gradf and proxg with the observed one"""
+    z = _rand_like(nrs, x0, float(P.get("mag") or 1.0))
+    if P["gspec"][0] == "box":
+        z = np_prox(P["gspec"], 1.0, z)
+    return dict(x0_re=z.real.tolist(), x0_im=z.imag.tolist() if np.iscomplexobj(x0) else None, accel=rng.random() < 0.5,
+                x=rng.choice(LAYOUTS), c=rng.choice((1.0, 0.5)))
+
+
+def pd_shadow(rng, nrs, x0, u0, P):
+    mag = float(P.get("mag") or 1.0)
+    z, w = _rand_like(nrs, x0, mag), _rand_like(nrs, u0, mag)
+    return dict(x0_re=z.real.tolist(), x0_im=z.imag.tolist() if np.iscomplexobj(x0) else None,
+                u0_re=w.real.tolist(), u0_im=w.imag.tolist() if np.iscomplexobj(u0) else None,
+                x=rng.choice(LAYOUTS), u=rng.choice(LAYOUTS))
 
 
 def pd_layout(rng, n, m, same_shape=False):
@@ -883,32 +1041,71 @@ def P_of(d):
         return re + 1j * np.array(im, dtype=float) if im is not None else re
     return dict(A=cv(d["A_re"], d["A_im"]), b=cv(d["b_re"], d["b_im"]), xs=cv(d["xs_re"], d["xs_im"]),
                 us=cv(d["us_re"], d["us_im"]), gspec=d["gspec"], structured=d.get("structured"),
-                identity_kind=d.get("identity_kind") or "lambda", exact_xs=d.get("exact_xs", True))
+                identity_kind=d.get("identity_kind") or "lambda", exact_xs=d.get("exact_xs", True),
+                mag=d.get("mag") or 1.0, c=cv(d["c_re"], d.get("c_im")) if d.get("c_re") is not None else None,
+                xreal=bool(d.get("xreal")))
+
+
+def cvec(re, im, dt):
+    re = np.array(re, dtype=float)
+    return (re + 1j * np.array(im, dtype=float) if im is not None else re).astype(dt)
+
+
+def gm_gradf(P, lo, xsh):
+    """the caller's gradient callback for problem P: a freshly computed array handed back C / Fortran ordered or in a
+    reused buffer (OUTS), the argument itself / a view of it (GRADK; f = ½|x|² only), or one persistent array of
+    problem data (CONSTK; linear f only).  Returns (callback, the persistent array or None)."""
+    A, b, out = P["A"], P["b"], lo["out"]
+    AH = A.conj().T
+    if out in GRADK:
+        if not (A.shape[0] == A.shape[1] and np.array_equal(A, np.eye(A.shape[0])) and not np.any(b) and P.get("c") is None):
+            raise ValueError("gradient kind %s needs f = ½|x|²" % out)
+        return alias_op(out, xsh), None
+    if out in CONSTK:
+        if np.any(A) or P.get("c") is None:
+            raise ValueError("gradient kind %s needs a linear f" % out)
+        data = lay(P["c"], xsh, lo.get("clay", "C"))
+        if out == "const-ro":
+            data.flags.writeable = False
+        return (lambda v: data), data
+    if P.get("c") is not None:
+        c = P["c"]
+        return wrap_op(lambda v: AH @ (A @ v - b) + c, xsh, out), None
+    return wrap_op(lambda v: AH @ (A @ v - b), xsh, out), None
 
 
 def oracle_gm(ctx, P, x0, c_alpha, accel, K, origin, w_extra=None, lo=None):
     """monotone objective (not accelerated) and the rate bounds against every comparison point w
     (the theorems hold for every w, in particular the planted minimiser).
-    x0: the start as a flat vector; lo: shape / memory layout of the caller's array, layout of the gradient
-    the caller's gradf returns, kind of prox (see LAYOUTS, OUTS, PROXK) — none of which the guarantees depend on.
-    The objective is evaluated on the CALLER's array."""
+    x0: the start as a flat vector; lo: shape / memory layout of the caller's array, what the caller's gradf hands back
+    (see LAYOUTS, OUTS, GRADK, CONSTK), kind of prox (PROXK), and optionally a `shadow`: a second live GradientMethod
+    object on its own array that shares the callbacks and is updated in between — none of which the guarantees depend on.
+    alpha = c_alpha/L, L the largest eigenvalue of AᴴA (for a linear f, L = 0, alpha = c_alpha).
+    The objective is evaluated on the CALLER's array, with the harness's own copy of the problem data."""
     from sigpy import alg
-    A, b = P["A"], P["b"]
+    A = P["A"]
     AH = A.conj().T
     L = float(np.linalg.eigvalsh(AH @ A)[-1])
-    alpha = c_alpha / L
+    alpha = c_alpha / L if L > 0 else float(c_alpha)
+    if isinstance(c_alpha, int) and L in (0.0, 1.0):
+        alpha = c_alpha            # handed over as a Python int (alpha = 1 = 1/L for f = ½|x|²)
+    mag = float(P.get("mag") or 1.0)
     lo = lo or dict(xshape=[len(x0)], x="C", out="C", prox="obj")
     xsh = tuple(lo["xshape"])
     x = lay(x0, xsh, lo["x"])
     xc = x
-    a = alg.GradientMethod(wrap_op(lambda v: AH @ (A @ v - b), xsh, lo["out"]), x, alpha,
-                           proxg=wrap_prox(real_prox(P["gspec"], xsh), lo["prox"])
-                           if P["gspec"][0] != "none" else None, accelerate=accel, max_iter=K)
+    gradf, _data = gm_gradf(P, lo, xsh)
+    proxg = wrap_prox(real_prox(P["gspec"], xsh), lo["prox"]) if P["gspec"][0] != "none" else None
+    a = alg.GradientMethod(gradf, x, alpha, proxg=proxg, accelerate=accel, max_iter=K)
+    sh, a2 = lo.get("shadow"), None
+    if sh:
+        x2 = lay(cvec(sh["x0_re"], sh.get("x0_im"), x0.dtype), xsh, sh.get("x", lo["x"]))
+        a2 = alg.GradientMethod(gradf, x2, alpha * sh.get("c", 1.0), proxg=proxg, accelerate=bool(sh["accel"]), max_iter=2 * K)
     ws = [P["xs"]] + ([w_extra] if w_extra is not None else [])
     Fw = [objective(P, w) for w in ws]
     d0 = [float(np.linalg.norm(x0 - w)) ** 2 for w in ws]
     Fprev = objective(P, x0)
-    scale = 1 + (abs(Fprev) if np.isfinite(Fprev) else 0.0) + max(abs(v) for v in Fw)
+    scale = mag ** 2 + (abs(Fprev) if np.isfinite(Fprev) else 0.0) + max(abs(v) for v in Fw)
     case = case_of(P, dict(oracle="gm", x0_re=x0.real.tolist(), x0_im=x0.imag.tolist() if np.iscomplexobj(x0) else None,
                            c_alpha=c_alpha, accel=accel, K=K, layout=lo,
                            w_extra_re=w_extra.real.tolist() if w_extra is not None else None,
@@ -919,7 +1116,12 @@ def oracle_gm(ctx, P, x0, c_alpha, accel, K, origin, w_extra=None, lo=None):
     dist_prev = float(np.linalg.norm(x0 - P["xs"])) if (not accel and P.get("exact_xs", True)) else None
     for k in range(1, K + 1):
         try:
+            if a2 is not None and k % 2 == 1:
+                a2.update()
             a.update()
+            if a2 is not None and k % 2 == 0:
+                a2.update()
+                a2.update()
         except Exception as e:  # noqa  -- a valid problem must run
             ctx.fail("C13:gm:raises", "GradientMethod.update raised on a valid problem", case,
                      observed="update %d: %s: %s" % (k, type(e).__name__, e), expected="an update", origin=origin)
@@ -939,7 +1141,7 @@ def oracle_gm(ctx, P, x0, c_alpha, accel, K, origin, w_extra=None, lo=None):
             dk = float(np.linalg.norm(flat(xc) - P["xs"]))
             if k == 1:
                 ctx.count("oracle:gm:fejer:runs")
-            if dk > dist_prev + 1e-8 * (1 + math.sqrt(d0[0])):
+            if dk > dist_prev + 1e-8 * (mag + math.sqrt(d0[0])):
                 ctx.fail("C13:gm:fejer", "distance to a minimiser increased in a non-accelerated update with alpha <= 1/L",
                          case, observed="|x_%d - x*|=%.17g > |x_%d - x*|=%.17g" % (k, dk, k - 1, dist_prev),
                          expected="non-increasing (ista_step_nonexpansive)", origin=origin)
@@ -947,7 +1149,7 @@ def oracle_gm(ctx, P, x0, c_alpha, accel, K, origin, w_extra=None, lo=None):
             dist_prev = dk
         for Fwi, d in zip(Fw, d0):
             bound = 2 * d / (alpha * (k + 1) ** 2) if accel else d / (2 * alpha * k)
-            if Fk - Fwi > bound * (1 + 1e-9) + 1e-10 * scale:
+            if not Fk - Fwi <= bound * (1 + 1e-9) + 1e-10 * scale:
                 ctx.fail("C13:gm:accel-rate" if accel else "C13:gm:rate",
                          "objective gap after k updates exceeds the %s bound" % ("2L|x0-w|^2/(k+1)^2" if accel else "L|x0-w|^2/(2k)"),
                          case, observed="k=%d gap=%.17g" % (k, Fk - Fwi), expected="<= %.17g" % bound, origin=origin)
@@ -973,28 +1175,42 @@ def oracle_pd(ctx, P, x0, u0, tau, sigma, gp, gd, K, what, origin, lo=None):
     xsh, ush = tuple(lo["xshape"]), tuple(lo["ushape"])
     x, u = lay(x0, xsh, lo["x"]), lay(u0, ush, lo["u"])
     xc, uc = x, u
-    tau0 = np.array(tau, dtype=float).reshape(-1).copy() if isinstance(tau, np.ndarray) else float(tau)
-    sig0 = np.array(sigma, dtype=float).reshape(-1).copy() if isinstance(sigma, np.ndarray) else float(sigma)
+    # scalar steps are handed over as given: Python floats, or Python ints (tau = sigma = 1 for |A| <= 1)
+    tau0 = np.array(tau, dtype=float).reshape(-1).copy() if isinstance(tau, np.ndarray) else (tau if isinstance(tau, int) else float(tau))
+    sig0 = np.array(sigma, dtype=float).reshape(-1).copy() if isinstance(sigma, np.ndarray) else (sigma if isinstance(sigma, int) else float(sigma))
     Aop, AHop = wrap_op(lambda v: A @ v, ush, lo["out"]), wrap_op(lambda w: AH @ w, xsh, lo["out"])
+    if P.get("xreal"):   # real unknown, complex data: the adjoint of the real-linear map x -> Ax is w -> Re(Aᴴw)
+        if np.iscomplexobj(x0) or P.get("structured") == "identity":
+            raise ValueError("xreal: the primal start must be real and A a general matrix")
+        AHop = wrap_op(lambda w: (AH @ w).real, xsh, lo["out"])
     if P.get("structured") == "identity":
-        # operators that return their ARGUMENT (sigpy.linop.Identity, lambda v: v): legal, and the only way to
-        # see whether the update scales or accumulates into the operator's output in place
-        import sigpy as sp
-        if P.get("identity_kind", "lambda") == "linop":
-            Aop = AHop = sp.linop.Identity(list(xsh))
-        else:
-            Aop = AHop = (lambda v: v)
-    a = alg.PrimalDualHybridGradient(wrap_prox(prox.L2Reg(ush, 1.0, y=(-b).reshape(ush)), lo["prox"]),
-                                     wrap_prox(real_prox(P["gspec"], xsh), lo["prox"]), Aop, AHop, x, u,
-                                     lay(tau0, xsh, lo["steps"]) if isinstance(tau, np.ndarray) else tau,
-                                     lay(sig0, ush, lo["steps"]) if isinstance(sigma, np.ndarray) else sigma,
+        # operators that return their ARGUMENT or a (reshaped) view of it (sigpy.linop.Identity / Reshape, lambda v: v,
+        # v[...], v.reshape(...)): legal, and the only way to see whether the update scales or accumulates into the
+        # operator's output in place
+        Aop, AHop = identity_ops(P.get("identity_kind") or "lambda", xsh, ush)
+    proxfc = wrap_prox(prox.L2Reg(ush, 1.0, y=(-b).reshape(ush)), lo["prox"])
+    proxg = wrap_prox(real_prox(P["gspec"], xsh), lo["prox"])
+
+    def steps(t0, shp):
+        return lay(t0, shp, lo["steps"]) if isinstance(t0, np.ndarray) else t0
+    a = alg.PrimalDualHybridGradient(proxfc, proxg, Aop, AHop, x, u, steps(tau0, xsh), steps(sig0, ush),
                                      gamma_primal=gp, gamma_dual=gd, max_iter=K)
+    sh, a2 = lo.get("shadow"), None
+    if sh:
+        # a second live object on its own arrays (and its own step arrays: they are rescaled in place when accelerating)
+        # that shares the operators and the prox objects, updated in between
+        x2 = lay(cvec(sh["x0_re"], sh.get("x0_im"), x0.dtype), xsh, sh.get("x", lo["x"]))
+        u2 = lay(cvec(sh["u0_re"], sh.get("u0_im"), u0.dtype), ush, sh.get("u", lo["u"]))
+        a2 = alg.PrimalDualHybridGradient(proxfc, proxg, Aop, AHop, x2, u2, steps(tau0.copy() if isinstance(tau0, np.ndarray) else tau0, xsh),
+                                          steps(sig0.copy() if isinstance(sig0, np.ndarray) else sig0, ush),
+                                          gamma_primal=gp, gamma_dual=gd, max_iter=2 * K)
     case = case_of(P, dict(oracle="pd", what=what, x0_re=x0.real.tolist(), x0_im=x0.imag.tolist() if np.iscomplexobj(x0) else None,
                            u0_re=u0.real.tolist(), u0_im=u0.imag.tolist() if np.iscomplexobj(u0) else None,
                            tau=tau0.tolist() if isinstance(tau0, np.ndarray) else tau0,
                            sigma=sig0.tolist() if isinstance(sig0, np.ndarray) else sig0, gp=gp, gd=gd, K=K, layout=lo,
                            conv_tol=P.get("conv_tol")))
-    scale = 1 + float(np.linalg.norm(xs)) + float(np.linalg.norm(us))
+    mag = float(P.get("mag") or 1.0)
+    scale = mag + float(np.linalg.norm(xs)) + float(np.linalg.norm(us))
     Dprev = None
     tw = tau0 if isinstance(tau0, np.ndarray) else np.full(n, tau0)
     sw = sig0 if isinstance(sig0, np.ndarray) else np.full(m, sig0)
@@ -1021,7 +1237,12 @@ def oracle_pd(ctx, P, x0, u0, tau, sigma, gp, gd, K, what, origin, lo=None):
     for k in range(1, K + 1):
         x_before = flat(xc)
         try:
+            if a2 is not None and k % 2 == 1:
+                a2.update()
             a.update()
+            if a2 is not None and k % 2 == 0:
+                a2.update()
+                a2.update()
         except Exception as e:  # noqa  -- a valid problem must run
             ctx.fail("C13:pd:raises", "PrimalDualHybridGradient.update raised on a valid problem", case,
                      observed="update %d: %s: %s" % (k, type(e).__name__, e), expected="an update", origin=origin)
@@ -1048,7 +1269,7 @@ def oracle_pd(ctx, P, x0, u0, tau, sigma, gp, gd, K, what, origin, lo=None):
                 psi = ((float(np.linalg.norm(xk - xs)) ** 2 / (2 * tk) + float(np.linalg.norm(uk - us)) ** 2 / (2 * sk)) / tk
                        + float(np.linalg.norm(ek)) ** 2 / (2 * tk ** 2) + float(np.vdot(uk - us, A @ ek).real) / tk)
                 ctx.count("oracle:pd:accel-lyapunov:evaluated")
-                if not psi <= psi_prev * (1 + 1e-9) + 1e-12 * (1 + e0):
+                if not psi <= psi_prev * (1 + 1e-9) + 1e-12 * (mag ** 2 + e0):
                     ctx.fail("C13:pd:accel-lyapunov", "accelerated PDHG (gamma_primal > 0, scalar steps): the Lyapunov function of "
                              "Chambolle-Pock Alg. 2 increased in one update", case,
                              observed="k=%d Psi=%.17g > previous %.17g" % (k, psi, psi_prev), expected="non-increasing",
@@ -1076,7 +1297,7 @@ def oracle_pd(ctx, P, x0, u0, tau, sigma, gp, gd, K, what, origin, lo=None):
                 psid = ((float(np.linalg.norm(xk - xs)) ** 2 / (2 * tk) + float(np.linalg.norm(uk - us)) ** 2 / (2 * sk)) / sk
                         + float(np.vdot(uk - us, A @ ek).real) / sk + float(np.linalg.norm(ek)) ** 2 / (2 * tk * sk))
                 ctx.count("oracle:pd:accel-lyapunov-dual:evaluated")
-                if not psid <= psid_prev * (1 + 1e-9) + 1e-12 * (1 + f0):
+                if not psid <= psid_prev * (1 + 1e-9) + 1e-12 * (mag ** 2 + f0):
                     ctx.fail("C13:pd:accel-lyapunov-dual", "accelerated PDHG (gamma_dual > 0, scalar steps): the Lyapunov function "
                              "Psi_d increased in one update", case,
                              observed="k=%d Psi_d=%.17g > previous %.17g" % (k, psid, psid_prev), expected="non-increasing",
@@ -1132,7 +1353,7 @@ def oracle_pd(ctx, P, x0, u0, tau, sigma, gp, gd, K, what, origin, lo=None):
                     for (w_, v_) in pairs:
                         D0 = weighted(x0 - w_, tw) - 2 * float(np.vdot(u1 - v_, A @ (x0 - w_)).real) + weighted(u1 - v_, sw)
                         l1_, l2_ = lagr(XN, v_), lagr(w_, UN)
-                        if not l1_ - l2_ <= D0 / (2 * N) + 1e-9 * (1 + abs(D0) + abs(l1_) + abs(l2_)):
+                        if not l1_ - l2_ <= D0 / (2 * N) + 1e-9 * (mag ** 2 + abs(D0) + abs(l1_) + abs(l2_)):
                             ctx.fail("C13:pd:ergodic-gap", "ergodic primal-dual gap L(X_N, v) - L(w, U_N) exceeds D_0(w,v)/(2N) "
                                      "(constant steps, PSD metric)", case,
                                      observed="N=%d gap=%.17g" % (N, l1_ - l2_), expected="<= %.17g" % (D0 / (2 * N)),
@@ -1140,7 +1361,7 @@ def oracle_pd(ctx, P, x0, u0, tau, sigma, gp, gd, K, what, origin, lo=None):
                             return False
             dx, du = x_before - xs, uk - us
             D = weighted(dx, tw) - 2 * float(np.vdot(du, A @ dx).real) + weighted(du, sw)
-            if Dprev is not None and D > Dprev + 1e-10 * (1 + abs(Dprev)):
+            if Dprev is not None and D > Dprev + 1e-10 * (mag ** 2 + abs(Dprev)):
                 ctx.fail("C13:pd:fejer", "coupled step-size-weighted distance to a saddle point increased (constant steps)",
                          case, observed="update %d: D=%.17g > previous %.17g" % (k, D, Dprev), expected="non-increasing",
                          origin=origin)
@@ -1149,7 +1370,7 @@ def oracle_pd(ctx, P, x0, u0, tau, sigma, gp, gd, K, what, origin, lo=None):
                 # pdhg_fejer_run_diag: D_k + R_{k-1} <= D_{k-1}, R the size of the previous update in the same metric
                 mx, mu = x_before - xprev, uk - uprev
                 R = weighted(mx, tw) - 2 * float(np.vdot(mu, A @ mx).real) + weighted(mu, sw)
-                if D + R > Dprev + 1e-10 * (1 + abs(Dprev)):
+                if D + R > Dprev + 1e-10 * (mag ** 2 + abs(Dprev)):
                     ctx.fail("C13:pd:fejer-step", "one-step Fejér inequality D_k + R_(k-1) <= D_(k-1) violated (constant steps)",
                              case, observed="update %d: D=%.17g R=%.17g previous D=%.17g" % (k, D, R, Dprev),
                              expected="D + R <= previous D", origin=origin)
@@ -1198,33 +1419,57 @@ def search_once(ctx, rng, origin, heavy):
         w_extra = (P["xs"] + 0.3 * nrs.randn(n)).astype(P["A"].dtype)
         if gk[0] == "box":
             w_extra = np.clip(w_extra.real, -0.5, 0.75).astype(P["A"].dtype)
+        if rng.random() < 0.3:   # tiny / huge data
+            P, x0, w_extra = rescale(P, rng.choice(MAGS), x0, w_extra)
+            ctx.count("oracle:gm:magnitude:%g" % P["mag"])
         for accel in (False, True):
             lo = gm_layout(rng, n)
+            if rng.random() < 0.3:
+                lo["shadow"] = gm_shadow(rng, nrs, x0, P)
+                ctx.count("oracle:gm:shadow")
             ctx.case(("oracle-gm", n, m, tuple(gk), cplx, structured, accel, canon(lo)))
             ctx.count("oracle:gm:%s:%s" % ("accel" if accel else "plain", gk[0]))
             ctx.count("oracle:gm:layout:%s" % lo["x"])
             oracle_gm(ctx, P, x0, rng.choice((1.0, 1.0, 0.7, 0.25)), accel, 120 if not heavy else 400, origin, w_extra, lo)
     search_zero_grad(ctx, rng, origin, 0)
+    search_alias(ctx, rng, origin, sweep=False)
     # ---- PDHG
     gk = rng.choice([["noop"], ["l2", fs(F(rng.randint(2, 12), 8))], ["l1", fs(F(rng.randint(1, 12), 8))]]
                     + ([] if cplx else [["box", "-1/2", "3/4"]]))
     n = rng.randint(1, 5)
     m = n + rng.randint(0, 3)
     ident = rng.random() < 0.3
-    P = planted(rng, m, n, gk, cplx, cond=rng.choice((1.5, 3.0)), structured="identity" if ident else None)
+    xreal = cplx and not ident and rng.random() < 0.4      # real unknown in a real-dtype array, complex operator and data
+    if xreal and rng.random() < 0.35:
+        gk = ["box", "-1/2", "3/4"]
+    P = planted(rng, m, n, gk, cplx, cond=rng.choice((1.5, 3.0)), structured="identity" if ident else None, xreal=xreal)
     if P is None:
         return
+    if xreal:
+        ctx.count("oracle:pd:real-x-complex-A")
     if ident:
         m = n
-        P["identity_kind"] = rng.choice(["lambda", "linop"])
+        P["identity_kind"] = rng.choice(IDENTK)
+        ctx.count("oracle:pd:identity:" + P["identity_kind"])
     P["conv_tol"] = 1e-6
     arr = rng.random() < 0.5
     tau, sigma = pd_steps(rng, P, arr)
+    if ident and not arr and rng.random() < 0.4:
+        tau, sigma = 1, 1     # Python ints: tau*sigma*|A|^2 = 1 for A = I
+        ctx.count("oracle:pd:int-steps")
     # starts: generic, or exactly zero on either side (A x_ext = 0 / Aᴴu = 0 exactly in the first update)
-    x0 = ((nrs.randn(n) + (1j * nrs.randn(n) if cplx else 0)) * rng.choice((1.0, 1.0, 0.0))).astype(P["A"].dtype)
+    x0 = ((nrs.randn(n) + (1j * nrs.randn(n) if cplx and not xreal else 0)) * rng.choice((1.0, 1.0, 0.0))).astype(P["xs"].dtype)
     u0 = ((nrs.randn(m) + (1j * nrs.randn(m) if cplx else 0)) * rng.choice((1.0, 1.0, 0.0))).astype(P["A"].dtype)
+    if rng.random() < 0.3:   # tiny / huge data
+        conv_tol = P["conv_tol"]
+        P, x0, u0 = rescale(P, rng.choice(MAGS), x0, u0)
+        P["conv_tol"] = conv_tol
+        ctx.count("oracle:pd:magnitude:%g" % P["mag"])
     tagarr = "arr" if arr else "sc"
-    lo = pd_layout(rng, n, m, same_shape=ident)
+    lo = pd_layout(rng, n, m, same_shape=ident and "reshape" not in P["identity_kind"])
+    if rng.random() < 0.3:
+        lo["shadow"] = pd_shadow(rng, nrs, x0, u0, P)
+        ctx.count("oracle:pd:shadow")
     ctx.case(("oracle-pd", n, m, tuple(gk), cplx, arr, canon(lo)))
     ctx.count("oracle:pd:layout:x=%s,u=%s" % (lo["x"], lo["u"]))
     ctx.count("oracle:pd:saddle:" + tagarr)
@@ -1239,12 +1484,14 @@ def search_once(ctx, rng, origin, heavy):
         n2 = rng.randint(1, 5)
         m2 = n2 + rng.randint(0, 3)
         c2 = rng.random() < 0.3
-        P2 = planted(rng, m2, n2, gk2, c2, cond=rng.choice((1.5, 3.0)))
+        P2 = planted(rng, m2, n2, gk2, c2, cond=rng.choice((1.5, 3.0)), xreal=rng.random() < 0.4)
         if P2 is None:
             continue
+        if P2.get("xreal"):
+            ctx.count("oracle:pd:real-x-complex-A")
         arr2 = rng.random() < 0.5
         t2, s2 = pd_steps(rng, P2, arr2)
-        x2 = (nrs.randn(n2) + (1j * nrs.randn(n2) if c2 else 0)).astype(P2["A"].dtype)
+        x2 = (nrs.randn(n2) + (1j * nrs.randn(n2) if c2 and not P2.get("xreal") else 0)).astype(P2["xs"].dtype)
         u2 = (nrs.randn(m2) + (1j * nrs.randn(m2) if c2 else 0)).astype(P2["A"].dtype)
         lam = float(F(gk2[1]))
         lo2 = pd_layout(rng, n2, m2)
@@ -1283,6 +1530,56 @@ def search_zero_grad(ctx, rng, origin, reps):
             oracle_gm(ctx, P, x0, rng.choice((1.0, 1.0, 0.5)), accel, 80, origin, w_extra, lo)
 
 
+ALIAS_G = [["none"], ["noop"], ["l2", "3/4"], ["l1", "1/2"], ["box", "-1/2", "3/4"], ["box", "1/2", "3/2"], ["box", "-2", "-1/4"]]
+LINEAR_G = [["l2", "3/4"], ["l1", "1/2"], ["box", "-1/2", "3/4"], ["box", "1/2", "3/2"]]
+
+
+def search_alias(ctx, rng, origin, sweep=True):
+    """GradientMethod with a gradient callback that does not allocate its result:
+      f = ½|x|²   + g, g in {0, l1, l2², box with / without 0 inside}: gradf returns its argument, a view of it, or is
+                       sigpy.linop.Identity (GRADK);
+      f = Re<c,x> + g, g in {l2², l1 with |c| < lam, box}: gradf returns the persistent data array c, writable or
+                       read-only (CONSTK) — L = 0, every alpha admissible.
+    Minimisers in closed form; descent, Fejér and both rate bounds from the first update on; real and complex; every
+    layout of the caller's array; plain and accelerated; some with a second live object sharing the callbacks, some on
+    tiny / huge data.  sweep: the full product layouts × callback kinds × accelerate (g rotating), else one random pick."""
+    nrs = np.random.RandomState(rng.randint(0, 2 ** 31 - 1))
+    todo = [(xl, kind, accel) for xl in LAYOUTS for kind in GRADK + CONSTK for accel in (False, True)] if sweep else \
+        [(rng.choice(LAYOUTS), rng.choice(GRADK + CONSTK), rng.random() < 0.5)]
+    gi = rng.randint(0, 100)
+    for xl, kind, accel in todo:
+        gi += 1
+        lin = kind in CONSTK
+        gk = list((LINEAR_G if lin else ALIAS_G)[gi % len(LINEAR_G if lin else ALIAS_G)])
+        if gk[0] in ("l1", "l2") and rng.random() < 0.5:
+            gk[1] = fs(F(rng.randint(1, 12), 8))
+        cplx = gk[0] != "box" and rng.random() < 0.35
+        xsh = pick_shape(rng, rng.choice((2, 3, 4, 6, 8)))
+        n = int(np.prod(xsh))
+        P = linear_instance(rng, n, gk, cplx) if lin else alias_instance(n, gk, cplx)
+        x0 = _rand_like(nrs, P["xs"], rng.choice((0.3, 1.0, 5.0))).astype(P["A"].dtype)
+        if gk[0] == "box" and rng.random() < 0.7:   # else: an infeasible start (F(x0) = inf; feasible after one update)
+            x0 = np_prox(gk, 1.0, x0)
+        w_extra = np_prox(gk, 1.0, P["xs"] + 0.3 * _rand_like(nrs, P["xs"], 1.0)).astype(P["A"].dtype)
+        if rng.random() < 0.25:
+            P, x0, w_extra = rescale(P, rng.choice(MAGS), x0, w_extra)
+            ctx.count("oracle:gm:magnitude:%g" % P["mag"])
+        lo = dict(xshape=list(xsh), x=xl, out=kind, prox=rng.choice(PROXK))
+        if lin:
+            lo["clay"] = rng.choice(LAYOUTS)
+        if rng.random() < 0.25:
+            lo["shadow"] = gm_shadow(rng, nrs, x0, P)
+            ctx.count("oracle:gm:shadow")
+        ctx.case(("oracle-gm-alias", tuple(xsh), tuple(gk), cplx, accel, xl, kind, P.get("mag", 1.0), "shadow" in lo))
+        ctx.count("oracle:gm:callback:%s:%s" % (kind, "accel" if accel else "plain"))
+        ctx.count("oracle:gm:callback-g:%s:%s" % ("linear" if lin else "half-sq", gk[0]))
+        c_alpha = rng.choice((1.0, 1.0, 0.7, 0.5, 0.25)) * (rng.choice((1.0, 3.0)) if lin else 1.0)
+        if rng.random() < 0.15:
+            c_alpha = 1            # a Python int
+            ctx.count("oracle:gm:int-alpha")
+        oracle_gm(ctx, P, x0, c_alpha, accel, 60, origin, w_extra, lo)
+
+
 def search_layouts(ctx, rng, origin):
     """every memory layout of the caller's arrays × every way an operator hands back its result, on small planted
     instances with variables that have two non-trivial axes: GradientMethod (± accelerate) and PDHG (scalar and
@@ -1301,6 +1598,9 @@ def search_layouts(ctx, rng, origin):
             for out in OUTS:
                 for accel in (False, True):
                     lo = dict(xshape=list(xsh), x=xl, out=out, prox=rng.choice(PROXK))
+                    if rng.random() < 0.15:
+                        lo["shadow"] = gm_shadow(rng, nrs, x0, P)
+                        ctx.count("oracle:gm:shadow")
                     ctx.case(("oracle-gm-layout", tuple(xsh), tuple(gk), cplx, accel, xl, out))
                     ctx.count("oracle:gm:layout-sweep:%s/%s" % (xl, out))
                     oracle_gm(ctx, P, x0, 1.0, accel, 40, origin, None, lo)
@@ -1312,21 +1612,34 @@ def search_layouts(ctx, rng, origin):
         if m < n:
             xsh, ush, n, m = ush, xsh, m, n
         gk = rng.choice([["noop"], ["l2", "1/2"], ["l1", "3/8"]] + ([] if cplx else [["box", "-1/2", "3/4"]]))
-        P = planted(rng, m, n, gk, cplx, cond=rng.choice((1.5, 3.0)), structured="identity" if ident else None)
+        xreal = cplx and rng.random() < 0.5     # real unknown in a real-dtype array, complex operator and data
+        if xreal and rng.random() < 0.35:
+            gk = ["box", "-1/2", "3/4"]
+        P = planted(rng, m, n, gk, cplx, cond=rng.choice((1.5, 3.0)), structured="identity" if ident else None, xreal=xreal)
         if P is None:
             continue
-        if ident:
-            P["identity_kind"] = rng.choice(["lambda", "linop"])
+        if xreal:
+            ctx.count("oracle:pd:real-x-complex-A")
         P["conv_tol"] = 1e-6
-        x0 = (nrs.randn(n) + (1j * nrs.randn(n) if cplx else 0)).astype(P["A"].dtype)
+        x0 = (nrs.randn(n) + (1j * nrs.randn(n) if cplx and not xreal else 0)).astype(P["xs"].dtype)
         u0 = (nrs.randn(m) + (1j * nrs.randn(m) if cplx else 0)).astype(P["A"].dtype)
-        P2 = None if ident else planted(rng, m, n, ["l2", "3/4"], cplx, cond=2.0)
+        P2 = None if ident else planted(rng, m, n, ["l2", "3/4"], cplx, cond=2.0, xreal=xreal)
         for xl in LAYOUTS:
             for ul in LAYOUTS:
                 for arr in (False, True):
+                    if ident:   # every way of handing back the argument; the reshaping ones between different shapes
+                        P["identity_kind"] = rng.choice(IDENTK)
+                        ush = xsh if "reshape" not in P["identity_kind"] else tuple(rng.choice([t for t in shapes_of(n) if len(t) > 1]))
+                        ctx.count("oracle:pd:identity:" + P["identity_kind"])
                     tau, sigma = pd_steps(rng, P, arr)
+                    if ident and not arr and rng.random() < 0.4:
+                        tau, sigma = 1, 1     # Python ints: tau*sigma*|A|^2 = 1 for A = I
+                        ctx.count("oracle:pd:int-steps")
                     lo = dict(xshape=list(xsh), ushape=list(ush), x=xl, u=ul, out=rng.choice(OUTS),
                               steps=rng.choice(("C", "F")), prox=rng.choice(PROXK))
+                    if rng.random() < 0.15:
+                        lo["shadow"] = pd_shadow(rng, nrs, x0, u0, P)
+                        ctx.count("oracle:pd:shadow")
                     ctx.case(("oracle-pd-layout", xsh, ush, tuple(gk), cplx, ident, xl, ul, arr))
                     ctx.count("oracle:pd:layout-sweep:x=%s,u=%s:%s" % (xl, ul, "arr" if arr else "sc"))
                     oracle_pd(ctx, P, P["xs"].copy(), P["us"].copy(), tau, sigma, 0, 0, 15, "saddle", origin, lo)
@@ -1374,11 +1687,20 @@ def oracle_on_case(ctx, c, origin):
     if gk[0] == "box":
         x0 = np.clip(x0.real, float(F(gk[1])), float(F(gk[2]))).astype(P["A"].dtype)
     xsh, ush = list(c.get("xshape") or [c["n"]]), list(c.get("ushape") or [c["m"]])
+    alias = c.get("olay") in GRADK
     if c["kind"] == "gm":
+        if alias:   # the case's own problem: f = ½|x|², gradf hands back its argument
+            P = alias_instance(c["n"], gk, cc["mode"] == "complex")
         lo = dict(xshape=xsh, x=c.get("xlay", "C"), out=c.get("olay", "C"), prox=c.get("proxk", "obj"))
-        oracle_gm(ctx, P, x0, 1.0, bool(c["accel"]), 300, origin, None, lo)
+        oracle_gm(ctx, P, x0, rng.choice((1.0, 0.7, 0.5)) if alias else 1.0, bool(c["accel"]), 300, origin, None, lo)
         return
-    lo = dict(xshape=xsh, ushape=ush, x=c.get("xlay", "C"), u=c.get("ulay", "C"), out=c.get("olay", "C"),
+    if alias:       # A = AH = identity handed back as the argument
+        P = planted(rng, c["n"], c["n"], gk, cc["mode"] == "complex", structured="identity")
+        if P is None:
+            return
+        P["identity_kind"] = {"arg": "lambda"}.get(c["olay"], c["olay"])
+        P["conv_tol"] = 1e-5
+    lo = dict(xshape=xsh, ushape=ush, x=c.get("xlay", "C"), u=c.get("ulay", "C"), out="C" if alias else c.get("olay", "C"),
               steps=c.get("tlay", "C"), prox=c.get("proxk", "obj"))
     u0 = np.array(build_vec(cc, "u0"), dtype=P["A"].dtype)
     arr = c["tau"][0] == "a"
@@ -1411,6 +1733,7 @@ def _search(ctx, budget, rng):
     for d in ctx.disagreements[:40]:
         for _ in range(3):
             oracle_on_case(ctx, d["case"], "disagreement")
+    search_alias(ctx, rng, "search")
     search_layouts(ctx, rng, "search")
     search_zero_grad(ctx, rng, "search", 1 if budget <= 1 else 3)
     search_worstcase(ctx, rng, "search")
@@ -1433,7 +1756,7 @@ def replay(path):
     def cv(re, im):
         re = np.array(re, dtype=float)
         return (re + 1j * np.array(im, dtype=float)) if im is not None else re.astype(P["A"].dtype)
-    x0 = cv(d["x0_re"], d["x0_im"]).astype(P["A"].dtype)
+    x0 = cv(d["x0_re"], d["x0_im"]).astype(float if P.get("xreal") else P["A"].dtype)
     if d["oracle"] == "gm":
         w_extra = cv(d["w_extra_re"], d.get("w_extra_im")).astype(P["A"].dtype) if d.get("w_extra_re") is not None else None
         ok = oracle_gm(ctx, P, x0, d["c_alpha"], d["accel"], d["K"], "replay", w_extra, d.get("layout"))
